@@ -412,8 +412,14 @@ def lost_plan_witness(run: Any) -> str | None:
                 continue
             if any(a["kind"] == "mark" and a["a"] == tag[1] for a in rows2):
                 pushed = [a for a in rows2 if a["kind"] == "queue" and a["op"] == "ins"]
+                sid = claim[0]["a"]
+                mark_seq = min(a["seq"] for a in rows2)
+                # a stage that somebody else moved on (canceled, re-armed) between the claim and the end of the
+                # handler legitimately gets no plan: only a stage still RUNNING at that point lost its plan
+                later = [a for a in run.audit if a["kind"] == "status" and a["op"] == "stage" and a["a"] == sid and claim[0]["seq"] < a["seq"] < mark_seq]
+                if later and later[-1]["d"] != "RUNNING":
+                    break
                 if not pushed:
-                    sid = claim[0]["a"]
                     between = [a for a in run.audit if claim[0]["seq"] < a["seq"] and groups.of(a["seq"]) < g2 and groups.tag(groups.of(a["seq"])) != tag and a["kind"] in ("status", "mark")]
                     who = sorted({str(groups.tag(groups.of(a["seq"]))) for a in between})
                     return f"StartStage row {tag[1]} claimed {id2ref.get(sid, sid)} at seq {claim[0]['seq']} but committed no plan (its mark commit pushed nothing); commits in between by {who[:4]}"
